@@ -86,7 +86,7 @@ m = {"version": 1, "setup_cmd": "./setup.sh",
      "hooks": {"guard": "VSG_VERIF_TRACE", "enable": "checks run VSG from /repo's working tree through /verif/harness; the add-only wrappers of harness/hooks.py are installed from outside (monkeypatching) only when VSG_VERIF_TRACE=1; no hook code lives in /repo",
                "baseline_off_cmd": "cd /repo && /venv/bin/python -m pytest -q -p no:cacheprovider --timeout=900 --continue-on-collection-errors", "source_commits": [], "add_only": True},
      "engines": [{"name": "tlc", "path": "/opt/veriftools/tla/tla2tools.jar", "serves_properties": sorted(CHECKS), "kind_free_text": "TLC 1.8 model checker: design-level configs spec/MC_*.cfg, mutants spec/Mutant_*.cfg, trace validation spec/*Trace.tla"},
-                 {"name": "tlapm", "path": "/usr/local/bin/tlapm", "serves_properties": ["C09"], "kind_free_text": "TLA+ proof system: spec/ConvergeProof.tla proves the convergence argument of Converge.tla for any number of rules (47 obligations); an extra next to the TLC runs"}],
+                 {"name": "tlapm", "path": "/usr/local/bin/tlapm", "serves_properties": ["C09", "C15"], "kind_free_text": "TLA+ proof system: spec/ConvergeProof.tla proves the convergence argument of Converge.tla for any number of rules (47 obligations), spec/MainProof.tla proves C15_OutputOrder of Main.tla for any number of files and jobs (40 obligations); extras next to the TLC runs"}],
      "checks": checks,
      "notes": "One entry point ./check <ID>. Properties of one family share one cached collection per tree hash (.cache/). Known genuine defects: known_findings.json. Seeded breaking changes: seeded/.",
      "not_applicable": na}
